@@ -52,6 +52,8 @@ def spec_c01(h):
                 handed[w] = resp[1]
             elif w in handed and prev is not None and w in dict(prev["ongoing"]):
                 return k, "reissued-final", "tuner %d asked again and was given trial %d with status %s" % (w, resp[1], resp[2])
+            if resp[2] in ("STOPPED", "IDLE") and prev is not None and prev["rq"] and w not in dict(prev["ongoing"]):
+                return k, "queued-trial-lost", "trial %d waits in the retry queue but tuner %d, which holds nothing, was answered %s instead of being given it" % (prev["rq"][-1], w, resp[2])
         elif op[0] == "end":
             for w in [w for w, i in handed.items() if i == op[1]]:
                 handed.pop(w)
